@@ -19,6 +19,8 @@ pub async fn list_objects(
     if let Some(max_keys) = max_keys {
         path.push_str(&format!("&max-keys={}", max_keys));
     }
+    #[cfg(feature = "verif-hooks")]
+    let path = crate::aws::s3::verif_endpoint(path);
     debug!(
         "Listing objects in bucket \"{}\" with prefix \"{}\"",
         bucket, prefix
